@@ -294,6 +294,8 @@ class Engine(Interp):
                     return self.call_function(fi, v, [], {}, node)
             if isinstance(v, Opaque):
                 return Sym('num', z3.Real(fresh_name('len')), isint=True)
+            if isinstance(v, Sym) and v.kind == 'ref' and v.cls == 'NpArr':
+                return Sym('num', z3.ToReal(z3.Function('np_len', I, I)(v.t)), isint=True)
             raise OutOfSubset(f"len of {type(v).__name__}")
         if name == 'int':
             v = args[0]
@@ -365,6 +367,10 @@ class Engine(Interp):
             return None
         if name == 'tqdm':
             return Opaque('pbar')
+        if name == 'default_rng':
+            from contracts.deps import np_default_rng
+            self.note_assumed('numpy.random.default_rng')
+            return np_default_rng(self, args, node)
         if name == 'sum':
             if isinstance(args[0], tuple) and args[0][0] == 'indicator':
                 return Sym('num', z3.ToReal(args[0][1]), isint=True)
@@ -654,7 +660,7 @@ class Engine(Interp):
                 self.oblige(f"pre:{c.qual}:fixed-param:{p}", 'pre', False, node)
         old = self.snapshot(vals)
         caller = self.fn_stack[-1].qual if self.fn_stack else '?'
-        site = f"{caller}:L{getattr(node, 'lineno', 0)}"
+        site = f"{caller}:{self.site(node)}"
         ctx = Ctx(self, old, old)
         if c.requires:
             for nm, cl in c.requires(ctx):
@@ -679,7 +685,7 @@ class Engine(Interp):
                                 self.st.assume(hyp_of(cl))
                     raise RaiseSig(exc, node=node)
             else:
-                self.oblige(f"exc:{caller}:L{getattr(node, 'lineno', 0)}:{exc}:raised-by-{c.qual}", 'exc', z3.Not(w), node)
+                self.oblige(f"exc:{caller}:{exc}:raised-by-{c.qual}@{self.site(node)}", 'exc', z3.Not(w), node)
                 self.st.assume(z3.Not(w))
         self.havoc_modifies(c, vals)
         result = None
